@@ -88,6 +88,13 @@ where
     pub fn union(&mut self, v1: &Value, v2: &Value) {
         let v1 = self.find(v1);
         let v2 = self.find(v2);
+
+        // If both are already in the same set there is nothing to merge, and combining
+        // the set's data with itself would duplicate it.
+        if v1 == v2 {
+            return;
+        }
+
         let v1_val = self.data.get(&v1).cloned().unwrap_or(Data::identity());
         let v2_val = self.data.remove(&v2).unwrap_or(Data::identity());
         self.data.insert(&v1, v1_val.combine(v2_val));
